@@ -92,13 +92,127 @@ theorem handleSwitch_spec (U : Universe) (fuel : Nat) :
 /-- entries of one loop iteration whose frame goes to instance `i` with delta `dt` -/
 abbrev ItP (i : Inst) (dt : Int) : Entry → Prop := fun e => FrP i dt e ∨ SwP e
 
+/-- the loop keeps having a current world -/
+abbrev KeepsCur (s s' : St) : Prop := s.current ≠ none → s'.current ≠ none
+
+theorem Ext.keepsCur {P : Entry → Prop} {s s' : St} (a : Ext P s s') : KeepsCur s s' :=
+  fun h => by rw [a.current]; exact h
+
+/-- what a piece of a frame of world `i` does: well-formedness, a step for every other world, the
+clock fields, the current world stays set -/
+structure FrameStep (i : Inst) (dt : Int) (s s' : St) : Prop where
+  wf : WF s'
+  step : StepE i (ItP i dt) s s'
+  clock : SameClock s s'
+  cur : KeepsCur s s'
+
+theorem FrameStep.trans {i : Inst} {dt : Int} {a b c : St} (x : FrameStep i dt a b)
+    (y : FrameStep i dt b c) : FrameStep i dt a c :=
+  ⟨y.wf, x.step.trans y.step, x.clock.trans y.clock, fun h => y.cur (x.cur h)⟩
+
+theorem FrameStep.ofExt {i : Inst} {dt : Int} {s s' : St} (wf' : WF s') (e : Ext Quiet s s') :
+    FrameStep i dt s s' :=
+  ⟨wf', (e.toStepQuiet.toStepE i).mono fun _ h => Or.inl (Or.inl h), e.sameClock, e.keepsCur⟩
+
+/-- a processor's action, direct `loop.switch(...)` calls included -/
+theorem pact_step (U : Universe) (fuel : Nat) {s s' : St} {a : PAct} {o : Outcome} (i : Inst)
+    (dt : Int) (wf : WF s) (h : pact U fuel s a = (s', o)) : FrameStep i dt s s' := by
+  cases a with
+  | loopSwitch h' cc cn =>
+    simp only [pact] at h
+    obtain ⟨wf1, st1, sc1, _, j, hj, _⟩ := simpleSwitch_spec U fuel wf h
+    exact ⟨wf1, (st1.toStepE i).mono fun _ h => Or.inr h, sc1, fun _ => by rw [hj]; simp⟩
+  | user a =>
+    obtain ⟨wf1, e1⟩ := pact_spec U fuel wf (a := .user a) rfl h
+    exact FrameStep.ofExt wf1 e1
+  | setClock k =>
+    obtain ⟨wf1, e1⟩ := pact_spec U fuel wf (a := .setClock k) rfl h
+    exact FrameStep.ofExt wf1 e1
+  | peek =>
+    obtain ⟨wf1, e1⟩ := pact_spec U fuel wf (a := .peek) rfl h
+    exact FrameStep.ofExt wf1 e1
+
+/-- logging an entry that belongs to world `i` is a frame step of `i` -/
+theorem logOwn_step {i : Inst} {dt : Int} (s : St) (e : Entry) (hP : ItP i dt e)
+    (hof : ∀ j, j ≠ i → e.of j = false) (wf : WF s) :
+    FrameStep i dt s { s with log := e :: s.log } := by
+  refine ⟨⟨wf.fresh, wf.cached, wf.cur⟩, ⟨[e], by simp, ?_, ?_⟩, ⟨rfl, rfl⟩, fun h => h⟩
+  · intro x hx; simp only [List.mem_singleton] at hx; subst hx; exact hP
+  · intro j q0 hj hm hc
+    refine Or.inr ⟨hm, hc, ?_⟩
+    intro x hx; simp only [List.mem_singleton] at hx; subst hx; exact hof j hj
+
+theorem runProc_step (U : Universe) (fuel : Nat) {s s' : St} {i : Inst} {dt : Int} {p : Nat}
+    {k : ProcKind} {a : PAct} {o : Outcome} (wf : WF s)
+    (h : runProc U fuel s i dt p k a = (s', o)) : FrameStep i dt s s' := by
+  unfold runProc at h
+  have f1 : FrameStep i dt s { s with log := .proc i p dt :: s.log } :=
+    logOwn_step s _ (Or.inl (Or.inr (Or.inl ⟨p, rfl⟩)))
+      (fun j hj => by simp only [Entry.of, decide_eq_false_iff_not]; exact fun c => hj c.symm) wf
+  cases k with
+  | plain => exact f1.trans (pact_step U fuel i dt f1.wf h)
+  | update =>
+    obtain ⟨wf2, e2⟩ := dispatchWith_spec U (act_spec U fuel) f1.wf h
+    exact f1.trans (FrameStep.ofExt wf2 e2)
+  | coro =>
+    simp only at h
+    split at h
+    · simp only [Prod.mk.injEq] at h; obtain ⟨rfl, _⟩ := h; exact f1
+    · split at h
+      · simp only [Prod.mk.injEq] at h; obtain ⟨rfl, _⟩ := h; exact f1
+      · cases ha : pact U fuel { s with log := .proc i p dt :: s.log } a with
+        | mk s2 o2 =>
+          have f2 := f1.trans (pact_step U fuel i dt f1.wf ha)
+          rw [ha] at h
+          cases o2 with
+          | ok => simp only [Prod.mk.injEq] at h; obtain ⟨rfl, _⟩ := h; exact f2
+          | outOfFuel => simp only [Prod.mk.injEq] at h; obtain ⟨rfl, _⟩ := h; exact f2
+          | raised x =>
+            simp only [Prod.mk.injEq] at h; obtain ⟨rfl, _⟩ := h
+            obtain ⟨wf3, e3⟩ := markDead_spec Quiet i p f2.wf
+            exact f2.trans (FrameStep.ofExt wf3 e3)
+
+theorem runProcs_step (U : Universe) (fuel : Nat) (i : Inst) (dt : Int) :
+    ∀ (ks : List ProcKind) (s : St) (p : Nat) (acts : List PAct) (s' : St) (o : Outcome), WF s →
+      runProcs U fuel i dt s p ks acts = (s', o) → FrameStep i dt s s' := by
+  intro ks
+  induction ks with
+  | nil =>
+    intro s p acts s' o wf h
+    simp only [runProcs, Prod.mk.injEq] at h; obtain ⟨rfl, _⟩ := h
+    exact ⟨wf, StepE.refl _ _ _, SameClock.refl _, fun h => h⟩
+  | cons k ks ih =>
+    intro s p acts s' o wf h
+    simp only [runProcs] at h
+    cases hr : runProc U fuel s i dt p k (acts.headD (.user .none)) with
+    | mk s1 o1 =>
+      have f1 := runProc_step U fuel wf hr
+      rw [hr] at h
+      cases o1 with
+      | ok => exact f1.trans (ih _ _ _ _ _ f1.wf h)
+      | raised x => simp only [Prod.mk.injEq] at h; obtain ⟨rfl, _⟩ := h; exact f1
+      | outOfFuel => simp only [Prod.mk.injEq] at h; obtain ⟨rfl, _⟩ := h; exact f1
+
+/-- One `World.process(dt)` of the current world `i`, whatever its processors do (direct
+`loop.switch` calls included): a step; the remembered reading and `running` are not touched. -/
+theorem processWorld_step (U : Universe) (fuel : Nat) {s s' : St} {i : Inst} {dt : Int}
+    {acts : List PAct} {o : Outcome} (wf : WF s) (hc : s.current = some i)
+    (h : processWorld U fuel s i dt acts = (s', o)) :
+    WF s' ∧ Step (ItP i dt) s s' ∧ SameClock s s' ∧ s'.current ≠ none := by
+  unfold processWorld at h
+  have f1 : FrameStep i dt s { s with log := .frame i dt :: s.log } :=
+    logOwn_step s _ (Or.inl (Or.inr (Or.inr rfl)))
+      (fun j hj => by simp only [Entry.of, decide_eq_false_iff_not]; exact fun c => hj c.symm) wf
+  have f2 := f1.trans (runProcs_step U fuel i dt _ _ _ _ _ _ f1.wf h)
+  exact ⟨f2.wf, f2.step.toStep hc, f2.clock, f2.cur (by rw [hc]; simp)⟩
+
 /-- One iteration: the state after the frame part and the switch part. -/
 theorem loopStep_cases (U : Universe) (fuel : Nat) {s s' : St} {f : Frame} {o : Outcome}
     (h : loopStep U fuel s f = (s', o)) :
-    (s.current = none ∧ s' = { s with last := some f.reading } ∧ o = .raised .attributeError) ∨
+    (s.current = none ∧ s' = tickSt s (readingOf s.clock f) ∧ o = .raised .attributeError) ∨
     ∃ i, s.current = some i ∧ ∃ s1 o1,
-      processWorld U fuel { s with last := some f.reading } i (dtOf s.last f.reading) f.acts
-        = (s1, o1) ∧
+      processWorld U fuel (tickSt s (readingOf s.clock f)) i
+        (dtOf s.last (readingOf s.clock f)) f.acts = (s1, o1) ∧
       ((∃ h' cc cn, o1 = .raised (.switch h' cc cn) ∧
           handleSwitch U fuel fuel s1 h' cc cn = (s', o)) ∨
        ((∀ h' cc cn, o1 ≠ .raised (.switch h' cc cn)) ∧ s' = s1 ∧ o = o1)) := by
@@ -110,8 +224,8 @@ theorem loopStep_cases (U : Universe) (fuel : Nat) {s s' : St} {f : Frame} {o : 
     exact Or.inl ⟨hc, h.1.symm, h.2.symm⟩
   · rename_i i hc
     refine Or.inr ⟨i, hc, ?_⟩
-    cases hp : processWorld U fuel { s with last := some f.reading } i (dtOf s.last f.reading)
-        f.acts with
+    cases hp : processWorld U fuel (tickSt s (readingOf s.clock f)) i
+        (dtOf s.last (readingOf s.clock f)) f.acts with
     | mk s1 o1 =>
       rw [hp] at h
       refine ⟨s1, o1, rfl, ?_⟩
@@ -141,27 +255,31 @@ theorem loopStep_cases (U : Universe) (fuel : Nat) {s s' : St} {f : Frame} {o : 
           simp only [Prod.mk.injEq] at h
           exact Or.inr ⟨fun _ _ _ c => (by cases c), h.1.symm, h.2.symm⟩
 
-/-- setting the timestamp is a step -/
-theorem setLast_step (P : Entry → Prop) (s : St) (r : Int) : Step P s { s with last := some r } :=
-  ⟨[], by simp, by simp, fun _ _ hm hc => Or.inr ⟨hm, hc, by simp [NotOf]⟩⟩
-
 /-- anything the loop logs -/
 abbrev AnyP : Entry → Prop := fun _ => True
 
+/-- reading the clock is a step -/
+theorem tickSt_step (s : St) (r : Int) : Step AnyP s (tickSt s r) :=
+  ⟨[.tick r], by simp [tickSt], by simp, fun _ _ hm hc => Or.inr ⟨hm, hc, by
+    intro e he; simp only [List.mem_singleton] at he; subst he; rfl⟩⟩
+
+theorem tickSt_wf {s : St} (r : Int) (wf : WF s) : WF (tickSt s r) := ⟨wf.fresh, wf.cached, wf.cur⟩
+
 theorem loopStep_spec (U : Universe) (fuel : Nat) {s s' : St} {f : Frame} {o : Outcome}
     (wf : WF s) (h : loopStep U fuel s f = (s', o)) :
-    WF s' ∧ Step AnyP s s' ∧ s'.running = s.running := by
-  rcases loopStep_cases U fuel h with ⟨_, rfl, _⟩ | ⟨i, hc, s1, o1, hp, hrest⟩
-  · exact ⟨⟨wf.fresh, wf.cached, wf.cur⟩, setLast_step _ _ _, rfl⟩
-  · have wf0 : WF { s with last := some f.reading } := ⟨wf.fresh, wf.cached, wf.cur⟩
-    obtain ⟨wf1, e1⟩ := processWorld_spec U fuel wf0 hp
-    have st1 : Step AnyP s s1 :=
-      (setLast_step AnyP s f.reading).trans
-        ((frame_toStep (s := { s with last := some f.reading }) hc e1).mono fun _ _ => trivial)
+    WF s' ∧ Step AnyP s s' ∧ s'.running = s.running ∧ (s.current ≠ none → o = .ok → s'.current ≠ none) := by
+  rcases loopStep_cases U fuel h with ⟨_, rfl, rfl⟩ | ⟨i, hc, s1, o1, hp, hrest⟩
+  · exact ⟨tickSt_wf _ wf, tickSt_step _ _, rfl, fun _ c => by cases c⟩
+  · obtain ⟨wf1, st1', sc1, hcur1⟩ := processWorld_step U fuel (tickSt_wf _ wf) hc hp
+    have st1 : Step AnyP s s1 := (tickSt_step s _).trans (st1'.mono fun _ _ => trivial)
     rcases hrest with ⟨h', cc, cn, _, hs⟩ | ⟨_, rfl, _⟩
-    · obtain ⟨wf2, st2, sc2, _⟩ := handleSwitch_spec U fuel fuel _ _ _ _ _ _ wf1 hs
-      exact ⟨wf2, st1.trans (st2.mono fun _ _ => trivial), sc2.running.trans e1.running⟩
-    · exact ⟨wf1, st1, e1.running⟩
+    · obtain ⟨wf2, st2, sc2, hcur2⟩ := handleSwitch_spec U fuel fuel _ _ _ _ _ _ wf1 hs
+      refine ⟨wf2, st1.trans (st2.mono fun _ _ => trivial), sc2.running.trans sc1.running, ?_⟩
+      intro _ ho
+      cases fuel with
+      | zero => subst ho; simp [handleSwitch] at hs
+      | succ n => obtain ⟨j, hj⟩ := hcur2 (Nat.succ_ne_zero _); rw [hj]; simp
+    · exact ⟨wf1, st1, sc1.running, fun _ _ => hcur1⟩
 
 theorem loopRun_spec (U : Universe) (fuel : Nat) :
     ∀ (frames : List Frame) (s s' : St) (o : Outcome), WF s →
@@ -177,7 +295,7 @@ theorem loopRun_spec (U : Universe) (fuel : Nat) :
     simp only [loopRun] at h
     cases hl : loopStep U fuel s f with
     | mk s1 o1 =>
-      obtain ⟨wf1, st1, r1⟩ := loopStep_spec U fuel wf hl
+      obtain ⟨wf1, st1, r1, _⟩ := loopStep_spec U fuel wf hl
       rw [hl] at h
       cases o1 with
       | ok =>
